@@ -43,9 +43,10 @@ def one(name, nproc):
         for c in checks:
             env = dict(os.environ, VERIF_SIMFILE_SRC=wt, VERIF_OUT=outdir, VERIF_FAILFAST="1", VERIF_NPROC=str(nproc))
             t0 = time.time()
-            rc, out = sh([os.path.join(VERIF, "check"), c, "--tier", "quick"], cwd=VERIF, env=env)
+            tier = (meta.get("checks_run", {}).get(c) or {}).get("tier", "quick")  # a few changes are only in reach of the thorough tier
+            rc, out = sh([os.path.join(VERIF, "check"), c, "--tier", tier], cwd=VERIF, env=env)
             viol = sum(1 for l in out.splitlines() if l.startswith("VIOLATION"))
-            res["checks"][c] = {"exit": rc, "violation_lines": viol, "wall_s": round(time.time() - t0, 1)}
+            res["checks"][c] = {"exit": rc, "tier": tier, "violation_lines": viol, "wall_s": round(time.time() - t0, 1)}
             if rc == 1 and viol:
                 res["detected"] = True
                 break
